@@ -125,7 +125,7 @@ def small_grid():
 def run(ctx):
     ctx.exhaustive("small-grid", small_grid(), body,
                    "T in 1..12 x jerk in -4..4 x accel in -12..12 x first-tick rate in {-6,-1,0,1,5}")
-    ctx.given("generated", cases(), body, quick=12000, thorough=1600000)
+    ctx.given("generated", cases(), body, quick=12000, thorough=800000)
 
 
 def replay(ctx, part, case):
